@@ -18,6 +18,9 @@ func coresOf(w *WF) map[string]int {
 		if c < 1 {
 			c = 1
 		}
+		if n.ZeroCores {
+			c = 0
+		}
 		m[n.Name] = c
 	}
 	return m
@@ -63,6 +66,8 @@ var profC06 = Profile{
 	MaxProcs: 4, MaxItems: 6, Bufsizes: []int{0, 1, 2}, MaxSlots: 6,
 	Params: true, MultiOut: true, FanIn: true, FanOut: true, Custom: true,
 	Cores: true, TwoSources: true, Zip: true,
+	// (a joining task with more cores than its sub-stream has members)
+	Joins: true,
 }
 
 func init() {
@@ -92,6 +97,15 @@ func init() {
 				c.Probe("splitter-under-full-slots")
 			default:
 				w = Generate(c.Tape, tierProfile(profC06, c.Tier))
+				// a process whose tasks need no slot at all (CoresPerTask = 0): they run
+				// without one and must not hand one back either
+				for i := range w.Nodes {
+					if n := &w.Nodes[i]; n.Kind == KProc && c.Tape.Choose(simrt.StGen, 8, 0) == 1 {
+						n.ZeroCores = true
+						n.Cores = 0
+						c.Probe("zero-core-process")
+					}
+				}
 			}
 			// a quarter with scipipe's default logging (the program may then name its log
 			// file itself: NewWorkflowCustomLogFile)
